@@ -16,6 +16,7 @@
 #include <cstddef>
 #include <cstdint>
 #include <type_traits>
+#include <thread>
 #include <utility>
 
 ///////////////////////////////////////////////////////////////////////////////
@@ -168,6 +169,9 @@ namespace pika {
             std::atomic<std::uint64_t> state_;
             stop_callback_base* callbacks_ = nullptr;
             pika::threads::detail::thread_id_type signalling_thread_;
+            // request_stop may be called from a thread that is not a pika thread, all of which
+            // share the same (invalid) pika thread id
+            std::thread::id signalling_os_thread_;
         };
 
     }    // namespace detail
